@@ -146,7 +146,7 @@ func checkRoundTrip(a aval) (out [][2]string) {
 	return
 }
 
-var relSet = []string{"./a?b", "./", "../", "./b", "../b", "../../b", "./b/c", "../..", "./b/../c", "../../../x", "./é", "./a b", "./a@b", "./x#y", "./%41", "./b/."}
+var relSet = []string{"./.github/w", "../.terraform/m", "../../..cache", "./...", "./a?b", "./", "../", "./b", "../b", "../../b", "./b/c", "../..", "./b/../c", "../../../x", "./é", "./a b", "./a@b", "./x#y", "./%41", "./b/."}
 
 var subSet = []string{"", "m", "m/n", "a b", "é", "a@1.0.0", "x#y", "%41", "a?b"}
 
@@ -260,7 +260,7 @@ func remoteSeeds(full bool) []string {
 	schemes := []string{"https://", "HTTPS://", "ssh://", "http://", "git://", ""}
 	users := []string{"", "u@", "u:p@"}
 	hosts := []string{"example.com", "EXAMPLE.com", "example.com:8080", "[::1]"}
-	paths := []string{"/repo.git", "/foo.tgz", "/foo.tar.gz", "/foo", "/a%2Fb.tgz", "/a b.tgz"}
+	paths := []string{"/repo.git", "/foo.tgz", "/foo.tar.gz", "/foo", "/a%2Fb.tgz", "/a b.tgz", "/team/%2Fmirror/repo.git", "/%2F%2Fx.tgz", "/a%2F/b.tgz"}
 	subs := []string{"", "//sub", "//sub/dir", "//a b", "//a%20b", "//é", "//a@b", "//sub#f", "//.", "//..", "//a//b", "//", "//a/../b", "//a?b"}
 	queries := []string{"", "?ref=main", "?ref=a&ref=b", "?depth=1", "?archive=tgz", "?archive=tar.gz", "?archive=zip", "?checksum=x", "?b=1&archive=tgz&a=2", "?", "?ref=a%20b", "?ref=%zz", "?archive=tgz&archive=tgz",
 		"?ref=main&depth=%zz", "?checksum=x;y=1", "?archive=tar%2Egz", "?%61rchive=tar.gz", "?xarchive=tar.gz&archive=tar.gz", "?ref=v1&ref=v2%zz", "?archive=tar.gz&x=archive%3Dtar.gz"}
@@ -336,7 +336,7 @@ func localSeeds(maxSeg int) []string {
 		}
 	}
 	rec(nil)
-	out = append(out, "", ".", "..", "./", "../", "./a:b", ".\\a", "./a b", "./é", " ./a", "./a ", "./a//b", "./a@1.0.0")
+	out = append(out, "./.h", "./.h/a", "../.h", "./a/.h", "./..h", "../..h/a", "./...", "", ".", "..", "./", "../", "./a:b", ".\\a", "./a b", "./é", " ./a", "./a ", "./a//b", "./a@1.0.0")
 	return out
 }
 
